@@ -11,7 +11,7 @@ from mc.engine import Fail, result
 ID = 'C01'
 RULE = ('lattices = dh x anchor x origin style (decimal grid | file midpoint - dh/2) x extent nx,ny in 1..3 (thorough '
         '1..4) x EVERY non-empty subset of cells for extents up to 6 cells (thorough 9; structured hole patterns '
-        'above) x mask flags {none, all 1, each single cell 0, checkerboard} x cell order {row-major, column-major, '
+        'above; plus spacings/anchors with 7+ decimals: 1/128 @ (10.0234375, 45.0078125), 0.1/64, 0.1 @ (12.3456789, -7.1234567), 1/64) x mask flags {none, all 1, each single cell 0, checkerboard} x cell order {row-major, column-major, '
         'reversed}; probes = full 2-D product of per-axis sets {every column/row boundary incl. the upper bounding '
         'edge +-K ulps (K=4), cell midpoints, one cell outside each side, +-1e6}; thorough adds axis-wise +-64 ulp '
         'windows. Shipped regions (NZ, NZ collection, Italy collection, California collection, global 1.0 | 0.5): for '
@@ -25,6 +25,8 @@ EPS = float(numpy.finfo(float).eps)
 DHS_Q = [0.1, 0.25, 1.0]
 DHS_T = [0.1, 0.25, 1.0, 0.05, 0.2, 0.5]
 ANCH_Q = [(0.0, 0.0), (-0.3, -0.2), (-125.4, 31.5), (165.7, -47.8), (4.9, 35.3), (-180.0, -90.0)]
+FINE = [(0.0078125, (10.0234375, 45.0078125)), (0.0015625, (-0.0046875, 0.0015625)), (0.1, (12.3456789, -7.1234567)),
+        (0.015625, (-125.484375, 31.515625))]
 ANCH_T = ANCH_Q + [(179.0, 89.0), (-0.05, -0.05)]
 
 
@@ -38,6 +40,11 @@ def cases(tier, seed):
             for ny in range(1, mx + 1):
                 yield dict(kind='family', dh=dh, anchor=list(anchor), style=style, nx=nx, ny=ny,
                            all_subsets=(nx * ny <= full_subsets_upto), K=4, Kaxis=(0 if tier == 'quick' else 64))
+    # lattices whose spacing and anchor need many decimals (binary fractions, 7-decimal anchors)
+    for dh, anchor in FINE:
+        for nx, ny in ((1, 1), (2, 2), (3, 1), (1, 3), (3, 3)):
+            yield dict(kind='family', dh=dh, anchor=list(anchor), style='decimal', nx=nx, ny=ny,
+                       all_subsets=(nx * ny <= 4), K=4, Kaxis=(0 if tier == 'quick' else 64))
     regs = ['nz_csep_region', 'nz_csep_collection_region', 'italy_csep_collection_region',
             'california_relm_collection_region', 'global_1.0'] + (['global_0.5'] if tier == 'thorough' else [])
     for r in regs:
